@@ -1,1 +1,2 @@
+import Cpppo.Props.C03
 import Cpppo.Props.C19
